@@ -95,4 +95,48 @@ CHECKS = {
             dict(test="TestC08Negative", unit="negative", kind="enum", shards=(1, 1)),
         ],
     ),
+    "C18": dict(
+        level="exploration",
+        technique="metamorphic property testing (rapid): several opens of one unchanged tree by different routes, byte-wise diff under the documented mask",
+        rule="trees from the C07/C08 generators (incl. hostile names, wide directories), both modes, 2..6 successive or concurrent opens of the same unchanged "
+             "directory through the library, the network and make-iso; all images must have equal size and be byte-identical after masking exactly bytes 813..846 of "
+             "sectors 16 and 17 and, in PS3 mode, bytes 64..511 of sector 1; creation must fail for all opens or for none. non-trivial = tree with >= 2 directories and "
+             ">= 3 files opened by >= 2 different routes; distinct by (mode, concurrency, route list, tree shape)",
+        assumptions=["the directory order is the filesystem's own and unchanged between opens (the permuting wrapper is not used here)",
+                     "concurrent opens sample the scheduler; they do not enumerate interleavings"],
+        units=[
+            dict(test="TestC18Reopen", unit="reopen", kind="rapid", checks=(800, 16000), shards=(8, 16), bin=True),
+        ],
+    ),
+    "C05": dict(
+        level="exploration",
+        technique="model-based property testing (rapid): request histories mixing mutating and non-mutating opcodes vs. reference model + full snapshots of the root; real-binary slice per configuration channel",
+        rule="sessions of 2..30 steps over uploads (CREATE + 0..6 WRITE chunks of 0..3*64 KiB+1 bytes to new / existing / directory / nested / missing-parent / virtual-image "
+             "targets), stray WRITEs, DELETE/RMDIR/MKDIR of existing, missing and wrong-kind paths, read-back of uploaded files through OPEN+READ, interleaved with "
+             "listing/stat/open requests; writing disabled in 1/3 of the cases: every mutating request must get the failure code and the recursive snapshot (names, kinds, "
+             "sizes, mtimes, hashes) of the root must be identical afterwards; enabled: each WRITE reply equals the chunk length and the file grew by exactly the payload, "
+             "CREATE truncates/creates, DELETE/MKDIR/RMDIR are truthful and change nothing but their target, virtual-image paths are never creatable. unit bin: the same gate "
+             "on the real binary with writing enabled by flag, environment, --config INI and ./config.ini. non-trivial = mutating request after a state-changing non-mutating "
+             "one, or an upload with >= 2 chunks or a chunk > 64 KiB, or CREATE of an existing file; distinct by (write mode, transport, request list)",
+        assumptions=[INPROC, "mutations of a path that is currently open on the same connection make later effects unobservable to the model (counted as don't-care)"],
+        units=[
+            dict(test="TestC05Sessions", unit="sessions", kind="rapid", checks=(1600, 40000), shards=(8, 16)),
+            dict(test="TestC05Bin", unit="bin", kind="enum", shards=(5, 5), bin=True),
+        ],
+    ),
+    "C06": dict(
+        level="exploration",
+        technique="model-based property testing (rapid): listing/stat/dir-size replies vs. the harness's own lstat/stat walk, as multisets, over interleavings of the three listing commands",
+        rule="trees with empty directories, single entries, a directory of 40..400 (thorough: 3000) entries, nesting, names up to 255 bytes incl. non-ASCII and punctuation, "
+             "symlinks to files, directories, nothing and the parent's siblings; sessions open 1..5 directories (several spellings) and interleave READ_DIR_ENTRY, "
+             "READ_DIR_ENTRY_V2 and READ_DIR until past the end marker, mixed with STAT/DIR_SIZE, then STAT every path and DIR_SIZE every directory/link of the tree; the "
+             "model keeps the set of not-yet-reported names per open directory: each reported entry must be in it with true name, kind, size (0 for directories), mtime, "
+             "ctime and atime (window between open and report; masked in pipelined bursts), dangling links must never be reported, the end marker / bulk listing must "
+             "come exactly when every resolvable entry was reported, an exhausted handle lists nothing. non-trivial = a directory with >= 2 entries enumerated with >= 2 "
+             "entry-by-entry calls, or STAT/DIR_SIZE of a non-root path; distinct by (directory shape, path)",
+        assumptions=[INPROC, "subtrees with symlink cycles are not generated for DIR_SIZE; a sum following links and a sum of regular files proper are both accepted"],
+        units=[
+            dict(test="TestC06Listing", unit="listing", kind="rapid", checks=(1200, 24000), shards=(8, 16)),
+        ],
+    ),
 }
